@@ -83,7 +83,7 @@ def gen_system(rng, cfg, sid, big=False):
     nl = np.exp(nprng.uniform(-3, 1.5, size=(nspin, nnl, n))) * rho[:, None, :] ** 0.0
     wt = np.abs(nprng.normal(size=n)) * 0.05 + 1e-3
     if tail:
-        wt[tail] *= 2e4
+        wt[tail] *= 300.0
     val = -0.74 * (rho.mean(0)) ** (4.0 / 3) * (1 + 0.2 * nprng.normal(size=n))
     nsd = cfg.get("n_sdmx", 0)
     sd = np.exp(np.random.default_rng(int(nprng.integers(0, 2**31)) if nsd else 0).uniform(-3, 1.0, size=(nspin, nsd, n))) if nsd else np.zeros((nspin, 0, n))
@@ -899,6 +899,7 @@ def exec_history(hist, workdir, collect=None, light=False):
                       _so.minimize = _orig_min
                   if singular_trial:
                       stats["optimiser_hit_singular_trial_point_history_ends"] += 1
+                      last_fit = None  # the session is over: no end-of-history invariants either
                       break
                   if not seen_res:
                       stats["internal_state_unavailable"] += 1
@@ -927,7 +928,9 @@ def exec_history(hist, workdir, collect=None, light=False):
                   stats["internal_state_unavailable"] += 1
               have_amol = getattr(gp, "alpha_mol_", None) is not None
               am = np.asarray(gp.alpha_mol_) if have_amol else R["amol"]
-              tol = 1e-12 * R["condK"] * max(np.abs(R["amol"]).max(), 1e-300) + 1e-300
+              # (the reaction covariance is itself the result of a solve with K_mm: its relative
+              # error eps*cond(K_mm) is amplified by cond(K) in the weights)
+              tol = max(1e-12 * R["condK"], 2e-15 * R["condK"] * R["condmm"]) * max(np.abs(R["amol"]).max(), 1e-300) + 1e-300
               if R["condK"] > 1e13:
                   # cond(K) beyond what double precision resolves: two correct solvers differ
                   # by any amount in the forward error; only the backward error below is judged
@@ -982,11 +985,16 @@ def exec_history(hist, workdir, collect=None, light=False):
                   continue
               R, fop = last_fit
               x = np.array([1.0, 1.0]) if op["x"] is None else np.array(op["x"])
-              got = call("compute_likelihood", gp.compute_likelihood, None if op["x"] is None else np.array(op["x"]), sigma_min=op["sigma_min"])
               noise_used = R["K"] - R["Kcov"]
               Kfull = x[0] ** 2 * R["Kcov"] + (op["sigma_min"] + x[1] ** 2) * noise_used
               Kfull = 0.5 * (Kfull + Kfull.T)
               w, v = np.linalg.eigh(Kfull)
+              if w.min() <= 0 or w.max() / w.min() > 1e13:
+                  # the matrix of this likelihood is numerically singular (exact constraints, huge
+                  # dynamic range): y^T K^-1 y and log det K have no correct digits to compare
+                  stats["likelihoods_not_judged_singular_matrix"] += 1
+                  continue
+              got = call("compute_likelihood", gp.compute_likelihood, None if op["x"] is None else np.array(op["x"]), sigma_min=op["sigma_min"])
               yv = R["y"]
               want = -0.5 * float((v.T.dot(yv) ** 2 / w).sum()) - 0.5 * float(np.log(w).sum()) - 0.5 * yv.size * np.log(2 * np.pi)
               stats["likelihoods"] += 1
@@ -1009,12 +1017,28 @@ def invariants(hist, workdir, state, seed):
     if last_fit is None or not rx_in:
         return viol, stats
     R, fop = last_fit
+    if R["condK"] > 1e13:
+        # numerically singular training matrix: refits agree to no digit, and their Cholesky
+        # factorisation succeeds or fails with the rounding of one ordering
+        stats["invariants_not_judged_singular_matrix"] += 1
+        return viol, stats
+    try:
+        return _invariants(hist, workdir, state, seed, viol, stats, rp)
+    except np.linalg.LinAlgError:
+        stats["invariants_not_judged_singular_matrix"] += 1
+        return [], stats
+
+
+def _invariants(hist, workdir, state, seed, viol, stats, rp):
+    gp, st, ref, data, ddir, rx_in, last_fit = state
+    cfg = hist["cfg"]
+    R, fop = last_fit
     x = None if fop["x"] is None else np.array(fop["x"])
     base_alpha = [np.asarray(k.alpha).copy() for k in gp.kernels]
     have_amol = getattr(gp, "alpha_mol_", None) is not None
     base_amol = np.asarray(gp.alpha_mol_).copy() if have_amol else R["amol"].copy()
     tol_a = [max(1e-11 * R["condmm"] * R["condK"], 1e-8) * max(np.abs(a).max(), 1e-300) for a in base_alpha]
-    tol_m = max(1e-11 * R["condK"], 1e-9) * max(np.abs(base_amol).max(), 1e-300)
+    tol_m = max(1e-11 * R["condK"], 2e-14 * R["condK"] * R["condmm"], 1e-9) * max(np.abs(base_amol).max(), 1e-300)
     rng = Rng(derive("gphist-inv", seed))
     # (a) refit without any change: idempotent
     _quiet(gp.fit, x=x, sigma_min=fop["sigma_min"])
@@ -1299,6 +1323,13 @@ def coverage(done, tier):
         "samples": samples,
         "ops_by_kind": {k[3:]: v for k, v in tot.items() if k.startswith("op_")},
         "fits_checked": tot["fits"],
+        # what the oracle declined to judge, and why (nothing else is skipped silently)
+        "not_judged": {
+            "fits_forward_error_at_cond_above_1e13_backward_error_still_judged": tot["fits_with_numerically_singular_matrix_forward_error_not_judged"],
+            "likelihoods_of_numerically_singular_matrices": tot["likelihoods_not_judged_singular_matrix"],
+            "end_of_history_invariants_of_numerically_singular_sessions": tot["invariants_not_judged_singular_matrix"] + tot["inv_order_not_judged_singular_matrix"],
+            "sessions_ended_by_a_singular_trial_point_of_the_optimiser": tot["optimiser_hit_singular_trial_point_history_ends"],
+        },
         "likelihoods_checked": tot["likelihoods"],
         "system_vectors_checked": tot["system_checks"],
         "finite_difference_checks": tot["fd_checks"],
